@@ -10,6 +10,7 @@ and hence the verdict is the same over all protocols. 8-bit types are swept
 exhaustively (16-bit in the thorough tier).
 """
 import base64
+import decimal
 import json
 
 from vflib import core, drive, gen, refdict, refflat, refval, refxml
@@ -356,6 +357,19 @@ MATRIX_LEAVES = [{'prim': 'Unicode', 'facets': {'pattern': p}} for p in gen.PATT
     {'prim': 'Date', 'facets': {}}, {'prim': 'Time', 'facets': {}}, {'prim': 'Duration', 'facets': {}},
     {'prim': 'Uuid', 'facets': {}}, {'prim': 'AnyUri', 'facets': {}},
     {'enum': ['Red', 'Green', 'Blue'], 'name': 'Colour'},
+    # an inclusive and an exclusive bound on the same side: every declared bound applies
+    {'prim': 'Integer', 'facets': {'gt': 0, 'ge': 3, 'le': 7, 'lt': 10}, 'ok': 5},
+    {'prim': 'Integer', 'facets': {'ge': 0, 'gt': 3, 'lt': 7, 'le': 10}, 'ok': 5},
+    {'prim': 'Decimal', 'facets': {'gt': '0', 'ge': '1.5', 'le': '2.5', 'lt': '4'}, 'ok': '2'},
+    {'prim': 'Double', 'facets': {'ge': '0.0', 'lt': '1.0'}, 'ok': 0.5},
+    {'prim': 'Double', 'facets': {'gt': '0.0', 'ge': '1.0', 'le': '2.0', 'lt': '3.0'}, 'ok': 1.5},
+    {'prim': 'DateTime', 'facets': {'ge': '2020-01-01T00:00:00', 'lt': '2021-01-01T00:00:00'}, 'ok': '2020-06-15T12:00:00'},
+    {'prim': 'DateTime', 'facets': {'gt': '2020-01-01T00:00:00', 'ge': '2020-06-01T00:00:00', 'le': '2020-09-01T00:00:00', 'lt': '2021-01-01T00:00:00'},
+     'ok': '2020-07-01T00:00:00'},
+    {'prim': 'Date', 'facets': {'ge': '2020-01-10', 'le': '2020-01-20'}, 'ok': '2020-01-15'},
+    {'prim': 'Date', 'facets': {'gt': '2020-01-01', 'ge': '2020-01-10', 'le': '2020-01-20', 'lt': '2020-01-30'}, 'ok': '2020-01-15'},
+    {'prim': 'Time', 'facets': {'ge': '08:00:00', 'lt': '17:00:00'}, 'ok': '12:00:00'},
+    {'prim': 'Time', 'facets': {'gt': '06:00:00', 'ge': '08:00:00', 'le': '17:00:00', 'lt': '19:00:00'}, 'ok': '12:00:00'},
 ]
 
 
@@ -368,6 +382,8 @@ def run_matrix(R, spec):
 
 
 def run_matrix_leaf(R, spec, rng, li, lt):
+    lt = dict(lt)
+    given_ok = lt.pop('ok', None)
     leaf = lambda **kw: dict(json.loads(json.dumps(lt)), **kw)
     ns = 'urn:vf:c05m'
     fields = [['f', leaf()], ['fl', {'array': leaf()}], ['fs', {'seq': leaf(), 'max': 'unbounded'}]]
@@ -385,7 +401,11 @@ def run_matrix_leaf(R, spec, rng, li, lt):
         except Exception as e:
             R.skip('%s: matrix universe rejected at construction: %s' % (fam, type(e).__name__))
     ok = None
-    for _ in range(20):
+    if given_ok is not None:
+        ok = decimal.Decimal(given_ok) if lt['prim'] == 'Decimal' else gen.facet_native(lt['prim'], given_ok)
+        if refval.check_call(ir, {'name': 'p', 'args': [['a', lt]], 'returns': [], 'style': 'wrapped'}, [ok]):
+            ok = None
+    for _ in range(0 if ok is not None else 20):
         v = refval.dense_value(rng, ir, lt)
         if v is not None and not refval.check_call(ir, {'name': 'p', 'args': [['a', lt]], 'returns': [], 'style': 'wrapped'}, [v]):
             ok = v
